@@ -46,6 +46,7 @@ def binLevel : BinOp → Nat × Assoc
 
 def arrSrc : ArrOp → String
   | .arrow => "->" | .darrow => "=>" | .seq => ">>" | .where_ => "where" | .orderby => "orderby"
+  | .tupmap => ":>" | .sum => "sum" | .max => "max" | .min => "min"
 
 /-- precedence level of the outermost construct of a term -/
 def Ast.level : Ast → Nat
